@@ -111,3 +111,17 @@ func IPString(ip []byte) string {
 	}
 	return string(b)
 }
+
+// RandByte yields one arbitrary byte (engine intrinsic).
+func RandByte() byte { panic("vstub.RandByte is an engine intrinsic") }
+
+// RandReader stands in for crypto/rand.Reader: every Read fills the buffer completely with arbitrary bytes.
+type RandReader struct{ n int }
+
+func (r *RandReader) Read(p []byte) (int, error) {
+	for i := range p {
+		p[i] = RandByte()
+	}
+	r.n += len(p)
+	return len(p), nil
+}
